@@ -40,6 +40,7 @@ Fixpoint list_eqb {A} (e : A -> A -> bool) (a b : list A) : bool :=
   end.
 
 Record icase := {
+  ic_base : N;                       (* genesis.InitialHeight - 1 *)
   ic_ops : list (list item);
   ic_obs : list (N * N * bool);     (* after each operation: reported height, store height, IsDAIncluded(reported+1) *)
   ic_trace : list eff;              (* the recorded effects (datastore Puts, SetFinal calls), oldest first *)
@@ -79,14 +80,14 @@ Definition meta_agrees (m : metaT) (dump : list (mkey * N)) : bool :=
 (* 1 = observations differ, 2 = effect log differs, 3 = metadata image differs, 4 = cache marks differ,
    5 = a key builder differs, 6 = the height visible at an instant of death / fault differs *)
 Definition check_case (c : icase) : list N :=
-  let '(s, os) := run_ops init (ic_ops c) in
+  let '(s, os) := run_ops (init (ic_base c)) (ic_ops c) in
   (if list_eqb obs_eqb os (ic_obs c) then [] else [1]) ++
   (if list_eqb eff_eqb (filter recordable (rev (tr s))) (ic_trace c) then [] else [2]) ++
   (if meta_agrees (meta s) (ic_meta c) then [] else [3]) ++
   (if forallb (fun e => optN_eqb (mget (hm s) (fst e)) (snd e)) (ic_hm c)
       && forallb (fun e => optN_eqb (mget (dm s) (fst e)) (snd e)) (ic_dm c) then [] else [4]) ++
   (if forallb (fun e => String.eqb (key_str (fst e)) (snd e)) (ic_keys c) then [] else [5]) ++
-  (if list_eqb N.eqb (deaths init (concat (ic_ops c))) (ic_death c) then [] else [6]).
+  (if list_eqb N.eqb (deaths (init (ic_base c)) (concat (ic_ops c))) (ic_death c) then [] else [6]).
 
 Fixpoint mismatches_from (i : N) (cs : list icase) : list (N * list N) :=
   match cs with
